@@ -16,6 +16,7 @@ Template directives (lines whose first non-blank characters are `//@`):
     //@head{ ... //@}                       clauses between signature and body
     //@start{ ... //@}                      ghost text at the start of the body
     //@loop <n>{ ... //@}                   clauses between the n-th loop header and its body
+    //@loopbody <n>{ ... //@}               ghost text at the start of the body of the n-th loop
     //@before <k> <anchor>{ ... //@}        ghost text before the statement containing the k-th
     //@after <k> <anchor>{ ... //@}         occurrence of <anchor> (resp. after it)
     //@closure <k> <orig header> => <typed header>{ ... //@}   typed closure header + clauses
@@ -670,6 +671,7 @@ class FnSpec:
         self.start = []
         self.loops = {}
         self.loopiters = {}
+        self.loopbodies = {}
         self.anchors = []   # (where, k, anchor, text)
         self.closures = []  # (k, orig, new, text)
         self.rules = set()
@@ -824,6 +826,10 @@ def apply_fn(text, spec, ctx, assoc_types=None, canary=False):
         if n < 1 or n > len(loops):
             raise ExtractError('fn %s: loop %d requested, function has %d loops' % (spec.name, n, len(loops)))
         ins.append((loops[n - 1][1], gtext))
+    for n, gtext in spec.loopbodies.items():
+        if n < 1 or n > len(loops):
+            raise ExtractError('fn %s: loopbody %d requested, function has %d loops' % (spec.name, n, len(loops)))
+        ins.append((loops[n - 1][1] + 1, gtext))
     unannotated = [i + 1 for i in range(len(loops)) if (i + 1) not in spec.loops]
     body = L.fn_body_brace(text)
     if spec.start:
@@ -907,6 +913,10 @@ def parse_fn_directives(lines, i, spec):
             _, n, nm = d.split()
             spec.loopiters[int(n)] = nm
             i += 1
+        elif d.startswith('loopbody '):
+            m = re.match(r'loopbody (\d+)\{$', d)
+            t, i = parse_block(lines, i)
+            spec.loopbodies[int(m.group(1))] = t
         elif d.startswith('loop '):
             m = re.match(r'loop (\d+)\{$', d)
             t, i = parse_block(lines, i)
